@@ -47,7 +47,7 @@ EXCLUDE = {("cplus", "C05")}
 QUICK_CELLS = ["O2", "no_pylong_internals", "avoid_borrowed_refs", "no_type_slots"]
 QUICK_CORPORA = ["C03", "C04", "C05", "C23"]
 # every cell re-runs the whole quick check of a corpus (TLC + builds + replay): 15 cells x 6 corpora is about an hour on 16 idle cores
-THOROUGH_CORPORA = ["C03", "C04", "C05", "C15", "C23", "C24"]
+THOROUGH_CORPORA = ["C03", "C05", "C23", "C24"]   # plus the quick tier's own (cell, corpus) pairs
 
 
 def available(pid):
@@ -93,6 +93,8 @@ def run(tier, seed):
         core.die("no corpus check available")
     wd = core.subdir("c39")
     jobs = [(c, p) for c in cells for p in corpora if (c[0], p) not in EXCLUDE]
+    if tier != "quick":
+        jobs += [(c, p) for c in CELLS if c[0] in QUICK_CELLS for p in QUICK_CORPORA if available(p) and (c, p) not in jobs]
     with concurrent.futures.ThreadPoolExecutor(max_workers=3) as ex:
         results = list(ex.map(lambda cp: run_cell(cp[0], cp[1], tier, seed, wd), jobs))
     table = {}
